@@ -22,6 +22,7 @@ POOL = [
     ("Product", "p", None, ["car", "bus"]),
     ("Element", "e", str, ["Fe"]),
     ("Grade", "g", None, ["hi", "lo", "mid"]),
+    ("Alloy series", "a", str, ["1000", "3000", "5000"]),  # a str-typed dimension whose items look like numbers
 ]
 
 
@@ -75,11 +76,40 @@ def check_listing(W, name, x, df, sparse):
     W.prove(f"{name}.every_entry_once_under_its_true_labels", (not dup) and rows == want, detail=f"{len(rows)} rows vs {len(want)} entries")
 
 
+def check_wide_listing(W, name, x, df, cdim):
+    """wide layout: one row per combination of the other dimensions' items, one column per item of cdim; every
+    cell holds the entry stored under the row's labels and the column's item"""
+    import numpy as np
+
+    others = [d for d in x.dims.dim_list if d.letter != cdim.letter]
+    d = df.reset_index() if not all(o.name in df.columns for o in others) else df
+    ok = len(d) == int(np.prod([len(o.items) for o in others]) if others else 1) and all(it in d.columns for it in cdim.items)
+    seen = set()
+    if ok:
+        for _, row in d.iterrows():
+            key = tuple(row[o.name] for o in others)
+            if key in seen:
+                ok = False
+            seen.add(key)
+            for it in cdim.items:
+                idx = []
+                for dm in x.dims.dim_list:
+                    idx.append(dm.items.index(it) if dm.letter == cdim.letter else dm.items.index(row[dm.name]))
+                if float(row[it]) != float(x.values[tuple(idx)]):
+                    ok = False
+    W.prove(f"{name}.wide.every_entry_once_under_its_true_labels", ok, detail=f"{len(d)} rows, columns {list(d.columns)}")
+
+
 def sk_roundtrip(tier):
     out = []
     for k in (1, 2, 3) + ((4,) if tier == "thorough" else ()):
         for layout in ("long_index", "long_columns", "wide_index", "wide_columns", "sparse"):
             if k == 1 and layout.startswith("wide"):
+                continue
+            if layout.startswith("wide"):
+                # which dimension is spread over the columns: every position
+                for col in range(k):
+                    out.append({"ndim": k, "layout": layout, "col": col})
                 continue
             out.append({"ndim": k, "layout": layout})
     return out
@@ -109,6 +139,8 @@ def u_roundtrip(W, sk):
     if layout.startswith("wide"):
         cand = multi or list(dims.dim_list)
         cd = rng.choice(cand)
+        if "col" in sk and len(dims.dim_list[sk["col"]].items) > 1:
+            cd = dims.dim_list[sk["col"]]
         kw["dim_to_columns"] = rng.choice([cd.name, cd.letter])
     kw["index"] = layout in ("long_index", "wide_index", "sparse")
     kw["sparse"] = sparse
@@ -121,6 +153,8 @@ def u_roundtrip(W, sk):
     W.prove("to_df.source_unchanged", bool(np.array_equal(x.values, snap)))
     if not layout.startswith("wide"):
         check_listing(W, "to_df", x, df, sparse)
+    else:
+        check_wide_listing(W, "to_df", x, df, dims[kw["dim_to_columns"]])
     # transformations of the statement
     steps = []
     g = df.copy()
